@@ -342,6 +342,31 @@ def run(case):
                         nt.append(f"{key}|{cls}|{wt}|{e}")
             if len(viol) > 4:
                 break
+        # the VALUE carried by an ignored arc must not influence solvability or the objective (flow decompositions, covers excluded)
+        FDmin = "MinFlowDecompCycles" if cyc else "MinFlowDecomp"
+        FDk = "kFlowDecompCycles" if cyc else "kFlowDecomp"
+        for e in E[:4]:
+            rest = [x for x in E if x != e]
+            if not rest:
+                continue
+            outs = []
+            for val in (None, 0, f[e], f[e] + 25):
+                arcs2 = [[a[0], a[1], (val if (a[0], a[1]) == e else a[2])] for a in inst["arcs"]]
+                o = drivers.observe(dict(inst, arcs=arcs2, cls=FDmin, kw={"weight_type": "int", "elements_to_ignore": [list(e)]}))
+                outs.append(("exc", o["exc_type"]) if o["exc"] else (("solved", len(o["sol"][rkey])) if o["solved"] else ("unsolved",)))
+            tags["ignore_value"] += 1
+            if len(set(outs)) != 1:
+                viol.append({"kind": "ignored_value_matters", "msg": f"{FDmin} ignoring {e} on {inst['arcs']}: results for the ignored arc's value in (absent, 0, {f[e]}, {f[e] + 25}) are {outs}"})
+            elif outs[0][0] == "solved":
+                nt.append(f"{key}|ignval|{e}")
+                kk = outs[0][1]
+                ko = []
+                for val in (0, f[e] + 25):
+                    arcs2 = [[a[0], a[1], (val if (a[0], a[1]) == e else a[2])] for a in inst["arcs"]]
+                    o = drivers.observe(dict(inst, arcs=arcs2, cls=FDk, kw={"weight_type": "int", "k": kk, "elements_to_ignore": [list(e)]}))
+                    ko.append(("exc", o["exc_type"]) if o["exc"] else ("solved" if o["solved"] else "unsolved"))
+                if len(set(ko)) != 1 or ko[0] != "solved":
+                    viol.append({"kind": "ignored_value_matters", "msg": f"{FDk}(k={kk}) ignoring {e} on {inst['arcs']}: with the ignored arc's value 0 / {f[e] + 25}: {ko}"})
         if cyc:
             # elements_to_ignore_percentile == explicitly ignoring the arcs whose weight lies below that percentile
             import numpy as np
